@@ -405,6 +405,7 @@ func clientSide(s ws.State) bool { return s&ws.StateClientSide != 0 }
 //@   ensures  [ok]    err == nil ==> n == len(p)
 //@   ensures  [n]     0 <= n && n <= len(p) && err == w.err
 //@   ensures  [fit]   old(w.err) == nil && len(p) <= old(len(w.buf)-w.n) ==> n == len(p) && w.n == old(w.n)+len(p) && outCalls(w.dest) == old(outCalls(w.dest)) && w.fseq == old(w.fseq) && sameSlice(w.buf, old(w.buf))
+//@   unproved "discharges in 20-45 s under load; attempted, not claimed"
 //@   ensures  [fitdata] old(w.err) == nil && len(p) <= old(len(w.buf)-w.n) ==> forall(0, len(p), func(k int) bool { return w.buf[old(w.n)+k] == p[k] }) && forall(0, old(w.n), func(k int) bool { return w.buf[k] == old(w.buf[k]) })
 //@   ensures  [quiet] old(w.noFlush) ==> outCalls(w.dest) == old(outCalls(w.dest))
 //@   ensures  [dirty] w.dirty
